@@ -99,6 +99,14 @@ var c20Cmds = []string{
 // spellings of the daemon invocation (what `rsync -e ssh host::module` sends)
 var c20DaemonCmds = []string{"rsync --server --daemon .", "rsync --server --daemon", "'rsync' --server --daemon ."}
 
+// daemon invocations that try to bring their own configuration / module map
+var c20EvilDaemonCmds = []string{
+	"rsync --server --daemon --gokr.config=%S/conf/evil.toml .",
+	"rsync --server --daemon --gokr.modulemap=evil=%S/secret_dir .",
+	"rsync --gokr.config=%S/conf/evil.toml --server --daemon .",
+	"rsync --server --daemon --config=%S/conf/evil.toml .",
+}
+
 func (c20) Generate(seed uint64, tier string, index int) any {
 	g := NewGen(kernel.Derive(seed, "workload"), tier == "thorough")
 	sc := &C20Scenario{Mode: []string{"auth", "anon", "anon"}[g.R.Intn(3)], AKStyle: g.R.Intn(4)}
@@ -111,6 +119,11 @@ func (c20) Generate(seed uint64, tier string, index int) any {
 			sc.Keys = append(sc.Keys, C20Key{Type: c20KeyTypes[g.R.Intn(len(c20KeyTypes))], Listed: g.R.Bool()})
 		}
 		for i := range sc.Keys {
+			if !sc.Keys[i].Listed && g.R.Intn(2) == 0 {
+				// an unlisted key that first shows a LISTED public key (query without
+				// signature) and then signs with its own key
+				sc.Sessions = append(sc.Sessions, C20Session{Key: i, Op: "trick-auth"})
+			}
 			sc.Sessions = append(sc.Sessions, C20Session{Key: i, Op: "daemon", Cmd: c20DaemonCmds[0]})
 			if g.R.Intn(3) == 0 {
 				// degenerate command lines from an (admitted or not) key: the daemon must survive them
@@ -127,6 +140,9 @@ func (c20) Generate(seed uint64, tier string, index int) any {
 			switch g.R.Intn(10) {
 			case 0:
 				sc.Sessions = append(sc.Sessions, C20Session{Op: "daemon", Cmd: c20DaemonCmds[g.R.Intn(len(c20DaemonCmds))]})
+				if g.R.Bool() {
+					sc.Sessions = append(sc.Sessions, C20Session{Op: "daemon-evil", Cmd: c20EvilDaemonCmds[g.R.Intn(len(c20EvilDaemonCmds))]})
+				}
 			case 1:
 				sc.Sessions = append(sc.Sessions, C20Session{Op: []string{"shell", "subsystem", "pty"}[g.R.Intn(3)]})
 			case 2:
@@ -239,6 +255,7 @@ func (c20) Run(t *testing.T, scenario any, job *Job, res *Result) {
 	} else {
 		cfg = fmt.Sprintf("[[listener]]\nhost_key_path = %q\nanon_ssh = \"sim:22\"\n\n[[module]]\nname = \"pub\"\npath = %q\nwritable = true\n", hostKey, pub)
 	}
+	os.WriteFile(filepath.Join(area, "conf", "evil.toml"), []byte(fmt.Sprintf("[[listener]]\nanon_ssh = \"sim:23\"\n[[module]]\nname = \"evil\"\npath = %q\nwritable = true\n", secretDir)), 0644)
 	cfgPath := filepath.Join(area, "conf", "gokr-rsyncd.toml")
 	os.WriteFile(cfgPath, []byte(cfg), 0600)
 	ringBefore, _ := fstree.Snapshot(area)
@@ -282,8 +299,19 @@ func (c20) Run(t *testing.T, scenario any, job *Job, res *Result) {
 				end := ln.Dial(fmt.Sprintf("198.51.100.%d:50000", 1+i), kernel.Unbounded, kernel.Unbounded)
 				end.WPipe().NonParking = true
 				end.RPipe().NonParking = true
+				sg := signers[s.Key]
+				if s.Op == "trick-auth" {
+					var decoy ssh.PublicKey
+					for k := range sc.Keys {
+						if sc.Keys[k].Listed {
+							decoy = signers[k].PublicKey()
+						}
+					}
+					sg = &trickSigner{real: signers[s.Key], decoy: decoy}
+					s.Op, s.Cmd = "daemon", c20DaemonCmds[0]
+				}
 				p := sim.Go("sshclient", func() error {
-					c20Client(end, signers[s.Key], s, subst, r)
+					c20Client(end, sg, s, subst, r)
 					return nil
 				}, end)
 				out := sim.Run()
@@ -353,6 +381,12 @@ func (c20) Run(t *testing.T, scenario any, job *Job, res *Result) {
 			return
 		}
 		switch s.Op {
+		case "daemon-evil":
+			if r.status == "@RSYNCD: OK" || len(r.listing) > 0 {
+				res.Violate("anon-exposure", "own-config-honoured", fmt.Sprintf("%s: the session defined its own module: status %q, listed %q", desc, r.status, r.listing))
+				return
+			}
+			res.Probe("own_config_attempts_refused", 1)
 		case "daemon":
 			if !strings.Contains(strings.Join(r.listing, "\n"), "pub") {
 				res.Violate("daemon-over-ssh", "no-module-listing", fmt.Sprintf("%s: daemon invocation did not return the module listing (%q, status %q, stdout %q, exit %d)\ndaemon log: %s", desc, r.listing, r.status, r.stdout, r.exit, tail(daemonLog.String(), 600)))
@@ -446,6 +480,25 @@ func cmdClass(s C20Session) string {
 }
 
 // c20Client performs one SSH client interaction over the simulated connection.
+// trickSigner shows a decoy public key the first time it is asked (the
+// publickey "query" that carries no signature) and its real key afterwards.
+type trickSigner struct {
+	real  ssh.Signer
+	decoy ssh.PublicKey
+	calls int
+}
+
+func (t *trickSigner) PublicKey() ssh.PublicKey {
+	t.calls++
+	if t.calls <= 1 && t.decoy != nil {
+		return t.decoy
+	}
+	return t.real.PublicKey()
+}
+func (t *trickSigner) Sign(rand io.Reader, data []byte) (*ssh.Signature, error) {
+	return t.real.Sign(rand, data)
+}
+
 func c20Client(conn net.Conn, signer ssh.Signer, s C20Session, subst func(string) string, r *c20Result) {
 	cfg := &ssh.ClientConfig{User: "anyone", Auth: []ssh.AuthMethod{ssh.PublicKeys(signer)}, HostKeyCallback: ssh.InsecureIgnoreHostKey()}
 	c, chans, reqs, err := ssh.NewClientConn(conn, "sim:22", cfg)
@@ -514,8 +567,28 @@ func c20Client(conn net.Conn, signer ssh.Signer, s C20Session, subst func(string
 			st, lines, _ := w.DaemonClientHandshake("", nil)
 			r.status, r.listing = st, lines
 		}
+	case "daemon-evil":
+		// a daemon invocation that names its own configuration: whatever it
+		// answers, the module "evil" (an outside directory) must not exist
+		r.execOK, r.reqErr = ch.SendRequest("exec", true, ssh.Marshal(&execMsg{subst(s.Cmd)}))
+		if r.execOK {
+			w := refproto.NewWire(ch, ch)
+			pr, _ := refproto.Pull(w, refproto.PullOpts{Daemon: true, Module: "evil", Args: []string{"--server", "--sender", "-r", ".", "evil/"}, ServerIsSender: true, MaxData: 1 << 20,
+				Plan: func(int, *refproto.Entry, int32) (bool, []byte, int, int) { return true, nil, 0, 0 }})
+			if pr != nil {
+				r.status = pr.Status
+				for _, f := range pr.Files {
+					r.stdout = append(r.stdout, f.Data...)
+				}
+				if pr.List != nil {
+					for _, e := range pr.List.Entries {
+						r.listing = append(r.listing, e.Name)
+					}
+				}
+			}
+		}
 	}
-	if s.Op != "daemon" && r.execOK {
+	if s.Op != "daemon" && s.Op != "daemon-evil" && r.execOK {
 		// a transfer may be waiting for input: send a protocol version so that
 		// a command-mode server gets going, then close our side
 		ch.Write([]byte{27, 0, 0, 0, 0, 0, 0, 0})
